@@ -30,7 +30,7 @@ WORLDS = {
         43000,
         [("jit", {}, 0.87, {"workers": 9}), ("nojit", {"NUMBA_DISABLE_JIT": "1"}, 0.13, {"workers": 7})],
     ),
-    "ops": ("C02", 1600, 150000, [("default", {}, 1.0)]),
+    "ops": ("C02", 2400, 200000, [("default", {}, 1.0)]),
 }
 
 
